@@ -245,6 +245,28 @@ def walk_all(fn, valuation, norm, project=None, limit=64):
     return outcomes
 
 
+def walk_paths(fn, valuation, norm, stop_pred=None, limit=64):
+    """all paths compatible with `valuation` (tests it does not decide are followed both ways): list of the raw (kind, result) of walk()"""
+    out = []
+    pending = [dict(valuation)]
+    seen = 0
+    while pending and seen < limit:
+        val = pending.pop()
+        seen += 1
+        kind, res = walk(fn, val, norm, stop_pred=stop_pred)
+        if kind == "unknown" and isinstance(res, str) and res.startswith("test `") and res.endswith("` is not one of the atoms"):
+            t = res[len("test `"):-len("` is not one of the atoms")]
+            for b in (True, False):
+                v2 = dict(val)
+                v2[t] = b
+                pending.append(v2)
+            continue
+        out.append((kind, res))
+    if pending:
+        out.append(("unknown", "too many undetermined tests"))
+    return out
+
+
 def _never_none(e):
     """`<call or literal> is None` is False, `... is not None` is True (results of constructors / numpy calls are objects)"""
     if isinstance(e, ast.Compare) and len(e.ops) == 1 and isinstance(e.ops[0], (ast.Is, ast.IsNot)) \
